@@ -65,7 +65,15 @@ class G:
         R = self.R
         for k in list(self.keys):
             for kk in (k, k[:8], k[8:], k + k[:8]):
-                for fn in (lambda: tools.encrypt_tdes_ecb(kk, R.randbytes(R.choice([1, 3, 5, 7, 9, 13]))),
+                iv = bytearray(8)                        # a chaining buffer: used as the IV, then rewritten in place
+
+                def chained(kk=kk, iv=iv):
+                    out = tools.encrypt_tdes_cbc(kk, iv, R.randbytes(16))
+                    iv[:] = out[-8:]
+                    tools.encrypt_tdes_cbc(kk, iv, R.randbytes(8))
+                    iv[:] = R.randbytes(8)
+                for fn in (chained,
+                           lambda: tools.encrypt_tdes_ecb(kk, R.randbytes(R.choice([1, 3, 5, 7, 9, 13]))),
                            lambda: tools.encrypt_tdes_cbc(kk, R.randbytes(8), R.randbytes(R.choice([3, 11, 16]))),
                            lambda: tools.encrypt_tdes_cbc(kk, R.randbytes(5), b"12345678"),
                            lambda: tools.key_check_digits(kk, 3),
@@ -148,6 +156,23 @@ class G:
         s = list("0123456789" * 2)
         self.R.shuffle(s)
         return "".join(s[:n])
+
+    def formatted(self, digits):
+        """a digit string as people and files carry it: grouped with blanks / tabs, or with a trailing newline"""
+        R = self.R
+        c = R.randrange(6)
+        if c == 0:
+            return " ".join(digits[i:i + 4] for i in range(0, len(digits), 4))
+        if c == 1:
+            return "\t".join(digits[i:i + 2] for i in range(0, len(digits), 2))
+        if c == 2:
+            return digits + R.choice(["\n", "\r\n", " ", "  "])
+        if c == 3:
+            return R.choice([" ", "  ", "\t"]) + digits
+        if c == 4:
+            k = R.randrange(0, len(digits) + 1) & ~1
+            return digits[:k] + R.choice([" ", "  ", "\n"]) + digits[k:]
+        return " ".join(digits[i:i + 2] for i in range(0, len(digits), 2))
 
     def form(self, s):
         """str or ASCII bytes form of a text value"""
@@ -237,6 +262,20 @@ def op_parity(v, **kw):
     return Case(f"tools.odd_parity {v}", lambda: tools.odd_parity(v), kw.get("gen", "odd_parity"))
 
 
+def byteslike_forms(b):
+    """(description, factory) of objects that bytearray() turns into the same bytes: buffers, sequences, one-shot iterables"""
+    import array
+    out = [("bytes", lambda: bytes(b)), ("bytearray", lambda: bytearray(b)), ("memoryview", lambda: memoryview(bytes(b))),
+           ("list", lambda: list(b)), ("tuple", lambda: tuple(b)), ("array('B')", lambda: array.array("B", b)),
+           ("iterator", lambda: iter(bytes(b))), ("generator", lambda: (x for x in bytes(b))), ("map", lambda: map(int, bytes(b))),
+           ("reversed", lambda: reversed(bytes(b)[::-1]))]
+    if len(b) % 2 == 0 and len(b):
+        out.append(("memoryview.cast('H')", lambda: memoryview(bytes(b)).cast("H")))
+    if len(b) % 4 == 0 and len(b):
+        out.append(("array('I') buffer", lambda: array.array("I", bytes(b))))
+    return out
+
+
 def op_adjust(k, **kw):
     return Case(f"tools.adjust_key_parity {hx(k)}", lambda: tools.adjust_key_parity(k), kw.get("gen", "adjust"))
 
@@ -278,6 +317,13 @@ def reused_buffer_cases(contents, line_of, call_of, gen):
             return call_of(buf)
         out.append(Case(line_of(bytes(c)), call, gen))
     return out
+
+
+def shared_object_cases(content, times, line, call_of, gen):
+    """one bytearray handed to the real code `times` times and never touched by the caller in between (a retry,
+    a second card): every call must see — and leave — the same content"""
+    buf = bytearray(content)
+    return [Case(line, lambda: call_of(buf), gen) for _ in range(times)]
 
 
 class Recorder:
